@@ -120,10 +120,17 @@ ReqStringEv(ev) ==
                 <<"C04.der_strict", ev.obs.derStrict = <<>> >> }
          [] OTHER -> {}
 
+(* every character of every subject value of a (foreign) certificate lies in the alphabet of its string type *)
+KindHasAlphabet(k) == k \in {"printable", "ia5", "teletex", "bmp", "universal"}
+SubjectInAlphabets(c) == \A i \in DOMAIN c.subject : KindHasAlphabet(c.subject[i].kind) =>
+                           \A j \in DOMAIN c.subjectCps[i] : InAlphabet(c.subject[i].kind, c.subjectCps[i][j])
 ReqImportEv(ev) ==
   IF ev.args.origin = "rcgen"
   THEN { <<"C17.import_succeeds", ev.out = "Ok">> } \cup (IF ev.out = "Ok" THEN ReqImportRcgen(ev.args, ev.obs) ELSE {})
+  ELSE IF ~SubjectInAlphabets(ev.args.cert)
+  THEN { <<"C13.loaded_strings_admit_only_their_alphabet", ev.out # "Ok">> }
   ELSE ReqImportForeign(ev.args, ev.out, ev.obs)
+       \cup (IF ev.out = "Ok" /\ ev.obs.reissue.k = "ok" THEN { <<"C04.der_strict", ev.obs.reissue.derStrict = <<>> >> } ELSE {})
 
 ReqKeyEv(ev) ==
   IF ev.op = "AlgTable" THEN ReqAlgTable(ev.obs)
